@@ -538,7 +538,9 @@ impl<'a> MtHelpers<'a> {
                             dispatch_reply(deps, env, msg, contract).map_err(Into::into)
                         }
                     } else {
-                        let reply_name = _reply.name().to_case(Case::Snake);
+                        // Call the very method marked as the reply handler. Re-deriving the
+                        // name from the variant is lossy for names with digits.
+                        let reply_name = _reply.function_name();
                         quote! {
                             self. #reply_name ((deps, env).into(), msg).map_err(Into::into)
                         }
